@@ -43,6 +43,18 @@ func sanitizeSelectionSet(ctx *PlanningContext, selectionSet ast.SelectionSet, i
 			for _, f := range addedFields {
 				scrubFields.Set(insertionPoint, s.TypeCondition, f)
 			}
+			// objects answer with their own type name, not with the interface or union of the fragment
+			if def, ok := ctx.Schema.Types[s.TypeCondition]; ok && def.IsAbstractType() {
+				for _, f := range addedFields {
+					// the client asks for the very same field next to the fragment, it has to stay
+					if selectionSetSelectsField(selectionSet, s, f) {
+						continue
+					}
+					for _, possibleType := range ctx.Schema.GetPossibleTypes(def) {
+						scrubFields.Set(insertionPoint, possibleType.Name, f)
+					}
+				}
+			}
 
 			switch s.ObjectDefinition.Kind {
 			case ast.Interface:
@@ -204,6 +216,31 @@ func addSelectionSetToSanitizedResult(s ast.SelectionSet, ss ...ast.Selection) a
 		s[i] = &merged
 	}
 	return s
+}
+
+// selectionSetSelectsField reports whether the field is selected at this level of the answer,
+// directly or through a fragment, by any selection other than the skipped one
+func selectionSetSelectsField(selectionSet ast.SelectionSet, skip ast.Selection, fieldname string) bool {
+	for _, selection := range selectionSet {
+		if selection == skip {
+			continue
+		}
+		switch s := selection.(type) {
+		case *ast.Field:
+			if s.Name == fieldname && (s.Alias == "" || s.Alias == fieldname) {
+				return true
+			}
+		case *ast.InlineFragment:
+			if selectionSetSelectsField(s.SelectionSet, nil, fieldname) {
+				return true
+			}
+		case *ast.FragmentSpread:
+			if s.Definition != nil && selectionSetSelectsField(s.Definition.SelectionSet, nil, fieldname) {
+				return true
+			}
+		}
+	}
+	return false
 }
 
 // selectionSetHasFieldKeyed reports whether the selection set already contains
